@@ -8,7 +8,11 @@ def split_frontmatter(text: str) -> tuple[str, str]:
     rest of the document. If no frontmatter is found, returns an empty string
     and the original text.
     """
-    lines = text.splitlines()
+    # Only LF and CRLF end a line. `str.splitlines()` would also split on VT, FF, FS, GS, RS,
+    # NEL, LS, PS and a lone CR, and rewrite them as newlines in the frontmatter and the body.
+    lines = text.replace("\r\n", "\n").split("\n")
+    if lines and lines[-1] == "":
+        lines.pop()
 
     # Skip empty lines at the beginning
     start_idx = 0
